@@ -130,19 +130,26 @@ fn selftest_determinism(args: &[String]) -> i32 {
                 bad += 1;
                 continue;
             }
-            if a.run_hashes != b.run_hashes || (a.run_hashes.len() as u64) < runs || a.exit != b.exit {
+            if a.run_hashes != b.run_hashes || (a.run_hashes.len() as u64) < runs || a.exit != b.exit || a.outcome_digest != b.outcome_digest {
                 eprintln!(
-                    "selftest: NON-DETERMINISM for {} seed {}: {} vs {} run hashes, exits {} / {}",
+                    "selftest: NON-DETERMINISM for {} seed {}: {} vs {} run hashes, exits {} / {}, outcome digests {:016x} / {:016x}",
                     e.id(),
                     seed,
                     a.run_hashes.len(),
                     b.run_hashes.len(),
                     a.exit,
-                    b.exit
+                    b.exit,
+                    a.outcome_digest,
+                    b.outcome_digest
                 );
+                for (x, y) in a.outcome_items.iter().zip(b.outcome_items.iter()) {
+                    if x != y {
+                        eprintln!("selftest:   differs: {:?} vs {:?}", x, y);
+                    }
+                }
                 bad += 1;
             } else {
-                println!("selftest: {} seed {}: {} runs identical under jobs=1 and jobs=16", e.id(), seed, runs);
+                println!("selftest: {} seed {}: {} runs: traces and outcomes (counters, distinct sets, violations) identical under jobs=1 and jobs=16", e.id(), seed, runs);
             }
         }
     }
